@@ -1,5 +1,5 @@
 from lib import flow
-from .pipecommon import CAT_D2, CAT_D3, CAT_D2_DROPPED, ASSUME_PIPE
+from .pipecommon import CAT_D2, CAT_D3, CAT_D2_DROPPED, ASSUME_PIPE, drop_variants
 
 def P(cat, **kw):
     d = {"tt": 1, "catalog": cat}
@@ -12,6 +12,7 @@ C = dict(
         dict(module="PipeDrop_MC", cfg="PipeDrop_MC_2_fixed.cfg", workers=8),
         dict(module="PipeDrop_MC", cfg="PipeDrop_MC_2p_fixed.cfg", workers=8),
         dict(module="PipeDrop_MC", cfg="PipeDrop_MC_3_fixed.cfg", workers=8),
+        dict(module="PipeDrop_MC", cfg="PipeDrop_MC_2q_fixed.cfg", workers=8),
         dict(module="PipeDrop_MC", cfg="PipeDrop_MC_2_synth.cfg", workers=8),
         dict(module="PipeDrop_MC", cfg="PipeDrop_MC_2r_fixed.cfg", workers=8),
         dict(module="PipeDrop_MC", cfg="PipeDrop_MC_2pr_fixed.cfg", workers=8),
@@ -19,6 +20,7 @@ C = dict(
     plan_sources=[
         dict(name="d2", module="PipeDrop_MC", cfg="PipeDrop_Plan2.cfg", cap={"quick": 70, "thorough": 3000}, params=P(CAT_D2), workers=8),
         dict(name="d2p", module="PipeDrop_MC", cfg="PipeDrop_Plan2p.cfg", cap={"quick": 50, "thorough": 350}, params=P(CAT_D2), workers=8),
+        dict(name="d2q", module="PipeDrop_MC", cfg="PipeDrop_Plan2q.cfg", cap={"quick": 40, "thorough": 400}, params=P(CAT_D2), workers=8),
         dict(name="d2n", module="PipeDrop_MC", cfg="PipeDrop_Plan2n.cfg", cap={"quick": 60, "thorough": 644}, params=P(CAT_D2), workers=8),
         dict(name="d3", module="PipeDrop_MC", cfg="PipeDrop_Plan3.cfg", cap={"quick": 40, "thorough": 3000}, params=P(CAT_D3), workers=8),
         # pause/resume on the same manager (stop, start again, partitions added again) and a second start after the drop was delivered
@@ -29,6 +31,7 @@ C = dict(
         dict(name="syn", module="PipeDrop_MC", cfg="PipeDrop_Plan2synth.cfg", cap={"quick": 50, "thorough": 500}, params=P(CAT_D2_DROPPED, seek_ts=5), workers=8),
     ],
     directed="plans/C04.jsonl",
+    expand_plans=drop_variants,
     trace=("Pipe_Trace", "Pipe_Trace.cfg"),
     validate_env={"PROP": "C04"},
     death="violation",
